@@ -40,3 +40,18 @@ def tokenString (tok : String) : Option String :=
 def joinSp (xs : List String) : String := " ".intercalate xs
 
 end Inkayaku.Util
+
+namespace Inkayaku.Util
+
+/-- Unicode `White_Space` (what Rust's `str::trim` removes) -/
+def isRustWhitespace (c : Char) : Bool :=
+  let n := c.toNat
+  (0x9 ≤ n && n ≤ 0xD) || n == 0x20 || n == 0x85 || n == 0xA0 || n == 0x1680 || (0x2000 ≤ n && n ≤ 0x200A)
+    || n == 0x2028 || n == 0x2029 || n == 0x202F || n == 0x205F || n == 0x3000
+
+def rustTrimChars (s : List Char) : List Char :=
+  ((s.dropWhile isRustWhitespace).reverse.dropWhile isRustWhitespace).reverse
+
+def rustTrim (s : String) : String := String.ofList (rustTrimChars s.toList)
+
+end Inkayaku.Util
